@@ -20,3 +20,7 @@ def run(repo, res, tier):
     langrules.rule_o2(repo, res, an)
     langrules.rule_lex1(repo, res, an, kinds=("number as str() writes it", "date/time"))
     timerules.rule_r(repo, res)
+    # a line broken after a hyphen or inside a long token: the default loader's dash-continuation rewrite deletes the
+    # dash and the line end (the wrap flags of PVLEncoder.format)
+    from .. import encrules
+    encrules.rule_w1(repo, res, which=("flags",))
